@@ -317,11 +317,18 @@ def rewrite_macros(text, log, where, settings):
 R11_PAT = re.compile(r"\b(\w+)\.splice\(\s*([\w.()+\- ]+?)\s*\.\.\s*([\w.()+\- ]+?)\s*,\s*([\w.]+)\.to_be_bytes\(\)\.iter\(\)\.copied\(\)\s*\)")
 
 
+# R11b: v.extend((<e> as u16).to_{be,le}_bytes().iter()) -> verif_extend_{be,le}16(&mut v, (<e> as u16)); the cast names the width
+R11B_PAT = re.compile(r"\b(\w+)\.extend\(\s*(\((?:[^()]|\((?:[^()]|\([^()]*\))*\))*? as u16\))\.to_(be|le)_bytes\(\)\.iter\(\)\s*\)")
+
+
 def rewrite_splice(text, log, where):
     """R11: x.splice(a..b, y.to_be_bytes().iter().copied()) -> verif_splice_be16(&mut x, a, b, y)"""
     text, n = R11_PAT.subn(r"verif_splice_be16(&mut \1, \2, \3, \4)", text)
     for _ in range(n):
         log.append(("R11", where, "splice(a..b, be16 bytes)"))
+    text, n = R11B_PAT.subn(lambda m: "verif_extend_%s16(&mut %s, %s)" % (m.group(3), m.group(1), m.group(2)), text)
+    for _ in range(n):
+        log.append(("R11b", where, "extend(u16 bytes)"))
     return text
 
 
